@@ -76,7 +76,11 @@ def extract_collapse(ctx):
 def prepare(ctx):
     extract_collapse(ctx)
     specs = inject_loops.parse_loops_file(os.path.join(vlib.VERIF, "contracts", "collapse.loops"))
-    inject_loops.inject(ctx.ext, specs, EXT, os.path.join(ctx.ext, "inj_" + EXT), ctx.notes)
+    try:
+        inject_loops.inject(ctx.ext, specs, EXT, os.path.join(ctx.ext, "inj_" + EXT), ctx.notes)
+    except inject_loops.InjectError as e:
+        # only the proof obligations that need the injected file become undecided; the bounded family runs on the raw file
+        ctx.infra_errors.append("loop-contract injection into %s failed: %s" % (EXT, e))
 
 
 def obligations(ctx):
